@@ -221,16 +221,33 @@ _BAD = [
     ("= {{ 1 + }}", "templating"),
     ("= 1 {% if %}", "templating"),
 ]
-_SUPPRESS = ["none", "noqa-code", "noqa-all", "ignore"]
+_SUPPRESS = ["none", "noqa-code", "noqa-all", "ignore", "warning"]      # warning: the error code configured as a warning
+
+
+_WARN_CFG = {}
+
+
+def _warn_cfg(code):
+    """an extra config file (there is no CLI flag for `warnings`), written once per run into a private temp directory"""
+    if code not in _WARN_CFG:
+        import atexit, shutil, tempfile
+        d = tempfile.mkdtemp(prefix="c18cfg_")
+        atexit.register(shutil.rmtree, d, ignore_errors=True)
+        path = os.path.join(d, "extra.cfg")
+        with open(path, "w") as f:
+            f.write(f"[sqlfluff]\nwarnings = {code}\n")
+        _WARN_CFG[code] = path
+    return _WARN_CFG[code]
 
 
 def _route_cases():
     for (bi, (body, _)), (bad, kind), sup in itertools.product(enumerate(_BODIES), _BAD, _SUPPRESS):
-        noqa = {"none": "", "ignore": "", "noqa-all": "  -- noqa",
+        noqa = {"none": "", "ignore": "", "warning": "", "noqa-all": "  -- noqa",
                 "noqa-code": "  -- noqa: " + ("PRS" if kind == "parsing" else "TMP")}[sup]
         sql = body.format(bad=bad, noqa=noqa)
-        cli_extra = ["--ignore", kind] if sup == "ignore" else []
-        overrides = {"ignore": kind} if sup == "ignore" else {}
+        code = "PRS" if kind == "parsing" else "TMP"
+        cli_extra = ["--ignore", kind] if sup == "ignore" else (["--config", _warn_cfg(code)] if sup == "warning" else [])
+        overrides = {"ignore": kind} if sup == "ignore" else ({"warnings": code} if sup == "warning" else {})
         yield {"label": f"body{bi}/{kind}[{bad}]/{sup}", "sql": sql, "cli": cli_extra, "cfg": overrides, "kind": kind, "sup": sup,
                "clean": body.format(bad="= 3", noqa="")}
 
@@ -332,7 +349,13 @@ def route_matrix(tier="quick", seed=0):
             ]
             for rname, function, run in routes:
                 ev += 1
-                ok, observed = run()
+                try:
+                    ok, observed = run()
+                except Exception as e:     # noqa -- a route that raises instead of leaving the input alone is decided too
+                    fails.add(f"C18/route/{rname}/raised-on-input-with-tmp-prs-error", function,
+                              {"case": c["label"], "input": sql, "exception": f"{type(e).__name__}: {str(e)[:200]}", "cli_args": c["cli"],
+                               "config": c["cfg"]})
+                    continue
                 if not ok:
                     fails.add(f"C18/route/{rname}/unchanged-with-tmp-prs-error", function,
                               {"case": c["label"], "input": sql, "observed": observed, "cli_args": c["cli"], "config": c["cfg"]})
